@@ -27,7 +27,7 @@ MUTATORS = ["add_attribute", "add_value", "add_formal", "add_record", "add_names
 
 def plan(tier, seed):
     return {
-        "cases": 5000 if tier == "quick" else 100000,
+        "cases": 5000 if tier == "quick" else 60000,
         "hashseeds": [0] if tier == "quick" else [0, 1, 2, 3],
         "timeout_s": 300 if tier == "quick" else 3000,
         "rule": "case = a c01 program (source) x 3 deriving operations x 2 follow-up mutations each, applied to the result or to the source; "
